@@ -21,10 +21,12 @@ Statement forms beyond py2coq's:
   the timer idiom  (if self.timeout_handle: self.timeout_handle.cancel(); self.timeout_handle = None)
                                                 -> let s__ := cancel_timer s__
   the task idiom   (task = asyncio.create_task(C); task.add_done_callback(lambda t: self.CB(t, ..)))
-                   optionally inside try/except RuntimeError (no running loop: outside the model), optionally followed by
-                   `except Exception as e` for a call that fails before producing an awaitable (outside the model; checked to be
-                   the done-callback's own handler for a failed task, log calls apart)
+                   optionally inside try/except RuntimeError (no running loop: outside the model)
                                                 -> let '(s__, id__) := spawn s__ KIND in a__ ++ [ACTION id__ ..]
+                   followed by a second clause `except Exception as e: H` (the call inside create_task(..) failed before an
+                   awaitable existed): the call is a `res unit` oracle of the connection (CALL_ORACLES)
+                                                -> match ORACLE with Ok _ => <spawn as above>
+                                                   | Err _ e => a__ ++ [CALL-ACTION]; <H translated> | OutOfModel => AOutOfModel end
   logger.* calls and the statements listed in SKIP (duration bookkeeping for log lines, certificate
   extraction: the peer's fingerprint is a constant of the connection in the model) are ignored."""
 import ast, sys, os, copy
@@ -231,17 +233,25 @@ class StFn(Fn):
         if isinstance(s, ast.Try) and len(s.handlers) == 2 and not s.orelse and not s.finalbody and self.spawn_idiom(s.body) \
                 and [ast.unparse(h.type) if h.type is not None else "" for h in s.handlers] == ["RuntimeError", "Exception"]:
             # try: <task idiom> except RuntimeError: <no loop> except Exception as e: <the CALL itself failed before any task existed>.
-            # The second handler is outside the model too (the model's handlers always yield a task), but it is CHECKED to be, apart
-            # from log calls, the same statements as the `except Exception` clause of the done-callback: a call that fails at once
-            # is answered exactly as a task that fails - the path the model does cover (TExc).
+            # The call inside create_task(...) is an oracle of the connection (spec["call_oracles"]: a `res unit`-valued environment
+            # parameter): Ok _ = it returned an awaitable - the task idiom; Err _ e = it raised Exception with str() = e before an
+            # awaitable existed - the invocation is recorded (the oracle's action) and the SECOND handler's statements are translated
+            # like any other statements.  A TypeError raised by asyncio.create_task itself (the call returned something that is not a
+            # coroutine) reaches the same handler and is folded into Err with asyncio's message.  The FIRST handler (RuntimeError: no
+            # running event loop - the protocol object lives inside a running loop; or a handler call that raises a RuntimeError
+            # itself) is outside the model and not translated.
             sp = self.spawn_idiom(s.body)
             h2 = s.handlers[1]
-            cb = find_function(self.spec["__tree__"], self.spec["cls"], sp[1].func.attr)
-            cbh = [hh for st in cb.body if isinstance(st, ast.Try) for hh in st.handlers if hh.type is not None and ast.unparse(hh.type) == "Exception"]
-            def strip(body): return [ast.unparse(x) for x in body if not ast.unparse(x).startswith("logger.")]
-            if len(cbh) != 1 or h2.name != cbh[0].name or strip(h2.body) != strip(cbh[0].body):
-                bad(s, "the handler for a call that fails before producing an awaitable differs from the done-callback's handler for a failed task")
-            return self.emit_spawn(sp[0], sp[1], rest, k, kc)
+            ckey = self.call_key(sp[0])
+            oc = self.spec.get("call_oracles", {}).get(ckey)
+            if not oc: bad(s, "a call that may fail before producing an awaitable, without an oracle (%s)" % ckey)
+            oracle, action = oc
+            ok_branch = self.emit_spawn(sp[0], sp[1], rest, k, kc)
+            if h2.name: self.env[h2.name] = "str"
+            after = self.block(rest, k, kc)
+            err_branch = "(let a__ := a__ ++ [%s] in %s)" % (action, self.block(h2.body, after, kc))
+            return "(match %s with Ok _ => %s | Err k__ %s => %s | OutOfModel => (s__, a__ ++ [AOutOfModel]) end)" % (
+                oracle, ok_branch, h2.name or "e__", err_branch)
         if isinstance(s, ast.Try) and len(s.handlers) == 1 and not s.orelse and not s.finalbody:
             h = s.handlers[0]
             hname = ast.unparse(h.type) if h.type is not None else ""
@@ -331,6 +341,10 @@ SPAWN_ACTIONS = {
     "self.upload_handler.handle_upload": (["self.titan_request"], "AUpload id__ (tline s__) (content s__)"),
 }
 
+# calls that may fail before they have produced an awaitable: call -> (oracle: environment parameter of type `res unit`, the action
+# recording the invocation when the call itself fails)
+CALL_ORACLES = {"self.upload_handler.handle_upload": ("upload_call", "AUploadCall (tline s__) (content s__)")}
+
 INIT_SKIP = ["self.request_handler = request_handler", "self.middleware = middleware", "self.upload_handler = upload_handler",
              "self.peer_name: tuple[str, int] | None = None", "self.request_start_time: float | None = None"]
 CM_SKIP = ["if self.transport:\n    self.peer_name = self.transport.get_extra_info('peername')", "self.request_start_time = time.time()"]
@@ -358,7 +372,9 @@ SPECS = [
          callee_params=[("send_error", ERR), ("start_titan_upload", ST1)],
          callees={"self._send_error_response": ("send_error", None), "self._start_titan_upload": ("start_titan_upload", None)},
          drop_args={"self._start_titan_upload": True}),
-    dict(func="_start_titan_upload", name="gen_start_titan_upload", params=[], env_params=ENV),
+    dict(func="_start_titan_upload", name="gen_start_titan_upload", params=[], env_params=ENV + [("upload_call", "(res unit)")],
+         callee_params=[("send_error", ERR)], callees={"self._send_error_response": ("send_error", None)},
+         call_oracles=CALL_ORACLES),
 ]
 
 HEADER = """(* GENERATED by /verif/translate/py2coq_server.py from /repo/src/nauyaca/server/protocol.py - do not edit *)
@@ -388,12 +404,12 @@ class SFn(StFn):
         return super().typeof(e)
 
 CLOSED_ENV = [("reencode_ignore", "str -> str"), ("ip6_check", "str -> option str"), ("handler", "str -> hres"), ("has_mw", "bool"),
-              ("has_upload", "bool"), ("peer_ip", "str"), ("peer_fp", "option str")]
+              ("has_upload", "bool"), ("upload_call", "res unit"), ("peer_ip", "str"), ("peer_fp", "option str")]
 
 def closed_definitions(specs):
     """cl_<m>: every translated method with its callee parameters instantiated by the (closed) translations of the
     methods it calls - the call graph of the class, read off the `self._x(...)` calls the translator met.  All closed
-    definitions take the same seven environment parameters."""
+    definitions take the same eight environment parameters."""
     meth2name = {}
     for sp in specs:
         for k, (n, _) in sp.get("callees", {}).items():
